@@ -9,8 +9,10 @@ package main
 
 import (
 	"fmt"
+	"go/ast"
 	"go/token"
 	"go/types"
+	"sort"
 	"strings"
 
 	"golang.org/x/tools/go/ssa"
@@ -115,16 +117,105 @@ func storesToBases(fn *ssa.Function, bases map[ssa.Value]bool) map[string][]*ssa
 // sliceLoadsField: v derives from a load of the named field of another options value whose struct type has the
 // given name (options of one layer are carried over from the caller's options of the same kind).
 func sliceLoadsField(v ssa.Value, field string, notBases map[ssa.Value]bool, structName string) bool {
+	return sliceLoadsFieldDepth(v, field, notBases, structName, 0)
+}
+
+func sliceLoadsFieldDepth(v ssa.Value, field string, notBases map[ssa.Value]bool, structName string, depth int) bool {
 	for x := range backSlice(v, nil) {
 		if u, ok := x.(*ssa.UnOp); ok && u.Op == token.MUL {
 			if f, fa := fieldOf(u.X); f != nil && f.Name() == field && !notBases[fa.X] {
 				if n := namedOf(fa.X.Type()); n != nil && n.Obj().Name() == structName {
-					return true
+					if carriesCallersField(fa.X, n, field, notBases, structName, depth) {
+						return true
+					}
 				}
 			}
 		}
 	}
 	return false
+}
+
+// carriesCallersField: the options value a field is read from is the caller's on every path — each object it can
+// denote is a parameter, or a struct built here whose same field was itself filled from the caller's (a private
+// copy that keeps the setting), or an empty default made where the caller passed nil. A copy that leaves the
+// field out makes the read yield the zero value: the setting is dropped although the read is still there.
+func carriesCallersField(obj ssa.Value, st *types.Named, field string, notBases map[ssa.Value]bool, structName string, depth int) bool {
+	bases := structBases(obj, st)
+	if len(bases) == 0 {
+		return true // not resolvable to objects (a field of another struct, a call result): as before
+	}
+	for b := range bases {
+		switch y := b.(type) {
+		case *ssa.Parameter:
+			continue
+		case *ssa.Alloc:
+			if depth >= 2 {
+				return false
+			}
+			var stores []*ssa.Store
+			if fn := y.Parent(); fn != nil {
+				allInstrs(fn, false, func(ins ssa.Instruction) {
+					if s, ok := ins.(*ssa.Store); ok {
+						if fv, fa := fieldOf(s.Addr); fv != nil && fv.Name() == field && fa.X == ssa.Value(y) {
+							stores = append(stores, s)
+						}
+					}
+				})
+			}
+			if len(stores) == 0 {
+				// a default for a nil option value is not a copy
+				underNil := false
+				for _, blk := range y.Parent().Blocks {
+					if len(blk.Instrs) == 0 {
+						continue
+					}
+					iff, ok := blk.Instrs[len(blk.Instrs)-1].(*ssa.If)
+					if !ok {
+						continue
+					}
+					be, ok := iff.Cond.(*ssa.BinOp)
+					if !ok || (be.Op != token.EQL && be.Op != token.NEQ) {
+						continue
+					}
+					// the options value itself is nil (not one of its fields)
+					isNilTest := false
+					for _, pr := range [][2]ssa.Value{{be.X, be.Y}, {be.Y, be.X}} {
+						if k, ok := pr[1].(*ssa.Const); ok && k.IsNil() {
+							if pt, ok := pr[0].Type().Underlying().(*types.Pointer); ok && namedOf(pt.Elem()) == st {
+								isNilTest = true
+							}
+						}
+					}
+					if !isNilTest {
+						continue
+					}
+					side := blk.Succs[0] // the edge on which the value is nil
+					if be.Op == token.NEQ {
+						side = blk.Succs[1]
+					}
+					if len(side.Preds) == 1 && side.Dominates(y.Block()) {
+						underNil = true
+					}
+				}
+				if !underNil {
+					return false
+				}
+				continue
+			}
+			for _, s := range stores {
+				nb := map[ssa.Value]bool{ssa.Value(y): true}
+				for k := range notBases {
+					nb[k] = true
+				}
+				if !sliceLoadsFieldDepth(s.Val, field, nb, structName, depth+1) {
+					return false
+				}
+			}
+		default:
+			// a call result, a load from elsewhere: not decided here
+		}
+	}
+	return true
 }
 
 func sliceHasCodecSource(v ssa.Value, notBases map[ssa.Value]bool) bool {
@@ -200,6 +291,10 @@ func optionForwarding(c *Ctx, r *Report, rule string, specs []fwdSpec, only ...s
 				switch {
 				case ff.src == "same":
 					ok = ok && sliceLoadsField(s.Val, ff.field, bases, sp.structName)
+					if ar := arithmeticOnField(s.Val, ff.field); ar != nil {
+						r.Violate(rule, r.Key(rule, fn, "forward-computed", sp.structName+"."+ff.field), ar.Pos(),
+							fmt.Sprintf("%s hands %s.%s on after arithmetic on the caller's value (%s): a value that means something special to the next layer (0 or a negative number: no limit, no timeout) can come out of the computation — %s", sp.fn, sp.structName, ff.field, ar.String(), fwdConsequence(ff.field)))
+					}
 				case strings.HasPrefix(ff.src, "field:"):
 					ok = ok && sliceLoadsField(s.Val, strings.TrimPrefix(ff.src, "field:"), bases, sp.structName)
 				case ff.src == "iotype":
@@ -277,4 +372,310 @@ func constructorLogSpecs() []fwdSpec {
 
 func fetcherSpecs() []fwdSpec {
 	return nil
+}
+
+// arithmeticOnField: a value-changing operation (+ - * / % shifts) between a load of the named options field and
+// v, found by walking back from v through phis, conversions and local cells only (what is merely tested or
+// passed to a call on the way is not a computation of the forwarded value).
+func arithmeticOnField(v ssa.Value, field string) *ssa.BinOp {
+	seen := map[ssa.Value]bool{}
+	var found *ssa.BinOp
+	var walk func(x ssa.Value, d int)
+	walk = func(x ssa.Value, d int) {
+		if x == nil || seen[x] || d > 12 || found != nil {
+			return
+		}
+		seen[x] = true
+		switch y := x.(type) {
+		case *ssa.Phi:
+			for _, e := range y.Edges {
+				walk(e, d+1)
+			}
+		case *ssa.ChangeType:
+			walk(y.X, d+1)
+		case *ssa.Convert:
+			walk(y.X, d+1)
+		case *ssa.MakeInterface:
+			walk(y.X, d+1)
+		case *ssa.UnOp:
+			if y.Op == token.MUL {
+				if a, ok := y.X.(*ssa.Alloc); ok {
+					for _, st := range cellStores(a) {
+						walk(st.Val, d+1)
+					}
+				}
+			}
+		case *ssa.BinOp:
+			switch y.Op {
+			case token.ADD, token.SUB, token.MUL, token.QUO, token.REM, token.SHL, token.SHR:
+				for z := range backSlice(y, nil) {
+					if u, ok := z.(*ssa.UnOp); ok && u.Op == token.MUL {
+						if f, _ := fieldOf(u.X); f != nil && f.Name() == field {
+							found = y
+							return
+						}
+					}
+				}
+			}
+		}
+	}
+	walk(v, 0)
+	return found
+}
+
+// startArgumentsReachLoaders: the constructors hand what the caller asked to start from — the entries, the entry
+// hash, the manifest hash — to their loader as given (a copy is fine; a filtered, sorted or re-derived list is
+// not: the caller's entries are what a limited load counts and puts back).
+func startArgumentsReachLoaders(c *Ctx, r *Report, rule string) {
+	p := c.P
+	n := 0
+	for _, sp := range []struct {
+		ctor  string
+		param int
+		sink  string
+		arg   int
+	}{{"NewFromEntry", 3, "fromEntry", 2}, {"NewFromEntryHash", 3, "fromEntryHash", 2}, {"NewFromMultihash", 3, "fromMultihash", 2}} {
+		fn := p.Func("", "", sp.ctor)
+		po := paramObjAny(fn, sp.param)
+		var call *ast.CallExpr
+		walkNoLit(fn.Body, func(nd ast.Node) bool {
+			if cx, ok := nd.(*ast.CallExpr); ok {
+				if cf := p.Callee(fn, cx); cf != nil && cf.Name() == sp.sink && p.firstParty(cf.Pkg()) {
+					call = cx
+				}
+			}
+			return true
+		})
+		key := r.Key(rule, fn, "start-argument", sp.sink)
+		if call == nil || po == nil || sp.arg >= len(call.Args) {
+			r.Violate(rule, key, fn.Body.Pos(), sp.ctor+" no longer calls "+sp.sink+" with its start argument")
+			continue
+		}
+		n++
+		arg := ast.Unparen(peelSliceCopy(p, fn, call.Args[sp.arg]))
+		if id, ok := arg.(*ast.Ident); ok {
+			if d := p.SoleDef(fn, p.ObjOf(fn, id)); d != nil && p.ObjOf(fn, id) != po {
+				arg = ast.Unparen(peelSliceCopy(p, fn, d))
+			}
+		}
+		ok := false
+		switch x := arg.(type) {
+		case *ast.Ident:
+			ok = p.ObjOf(fn, x) == po
+		case *ast.CompositeLit:
+			// []cid.Cid{hash}: exactly the caller's one element
+			if len(x.Elts) == 1 {
+				if id, isID := ast.Unparen(x.Elts[0]).(*ast.Ident); isID {
+					ok = p.ObjOf(fn, id) == po
+				}
+			}
+		}
+		r.Check(ok, rule, key, call.Args[sp.arg].Pos(),
+			sp.ctor+" hands its start argument to "+sp.sink+" as given",
+			fmt.Sprintf("%s hands `%s` to %s instead of the caller's %s itself: what the caller supplied is no longer what the loader counts, fetches from and puts back — a limited load returns fewer entries than were supplied, or other ones", sp.ctor, types.ExprString(call.Args[sp.arg]), sp.sink, po.Name()))
+	}
+	r.Floor(rule, "constructors handing a start argument to a loader", n, 3)
+}
+
+// optionsOnlyCompleted: a function that stores into a field of an options struct its caller handed in may fill in
+// a default, never a value computed from that field's own previous content: the caller's struct outlives the
+// call, and the next call would wrap, add to or re-derive what the previous one left there.
+func optionsOnlyCompleted(c *Ctx, r *Report, rule string) {
+	p := c.P
+	n := 0
+	for _, fn := range p.Fns {
+		if fn.Orig != nil || fn.Body == nil || fn.Obj == nil || !p.firstParty(fn.Pkg.Types) || strings.HasSuffix(fn.Pkg.PkgPath, "/test") {
+			continue
+		}
+		sf := p.SSAFunc(fn)
+		if sf == nil {
+			continue
+		}
+		allInstrs(sf, false, func(ins ssa.Instruction) {
+			st, ok := ins.(*ssa.Store)
+			if !ok {
+				return
+			}
+			fv, fa := fieldOf(st.Addr)
+			if fv == nil {
+				return
+			}
+			par, ok := fa.X.(*ssa.Parameter)
+			if !ok || par.Parent() != sf {
+				return
+			}
+			nt := namedOf(par.Type())
+			if nt == nil || !strings.HasSuffix(nt.Obj().Name(), "Options") {
+				return
+			}
+			n++
+			self := false
+			for x := range backSlice(st.Val, nil) {
+				if u, ok := x.(*ssa.UnOp); ok && u.Op == token.MUL {
+					if f2, fa2 := fieldOf(u.X); f2 == fv && fa2.X == ssa.Value(par) {
+						self = true
+					}
+				}
+			}
+			r.Check(!self, rule, r.Key(rule, fn, "option-store", nt.Obj().Name()+"."+fv.Name()), st.Pos(),
+				"the caller's "+nt.Obj().Name()+"."+fv.Name()+" is completed with a value that does not depend on its previous content",
+				fmt.Sprintf("%s stores into the caller's %s.%s a value computed from that field's own content: the struct outlives the call, so a second call with the same options value wraps or re-derives what the first one left there (a remembered answer, a stale list) instead of the caller's setting", fn.Name, nt.Obj().Name(), fv.Name()))
+		})
+	}
+	r.Floor(rule, "stores into a caller's options struct", n, 3)
+}
+
+// directFieldLoadBases: the objects from which v is a direct load of the named field — through phis, conversions
+// and local cells, not through stores into that field elsewhere.
+func directFieldLoadBases(v ssa.Value, field string) map[ssa.Value]bool {
+	out := map[ssa.Value]bool{}
+	seen := map[ssa.Value]bool{}
+	var walk func(x ssa.Value, d int)
+	walk = func(x ssa.Value, d int) {
+		if x == nil || seen[x] || d > 12 {
+			return
+		}
+		seen[x] = true
+		switch y := x.(type) {
+		case *ssa.Phi:
+			for _, e := range y.Edges {
+				walk(e, d+1)
+			}
+		case *ssa.ChangeType:
+			walk(y.X, d+1)
+		case *ssa.ChangeInterface:
+			walk(y.X, d+1)
+		case *ssa.MakeInterface:
+			walk(y.X, d+1)
+		case *ssa.UnOp:
+			if y.Op != token.MUL {
+				return
+			}
+			if a, ok := y.X.(*ssa.Alloc); ok {
+				for _, st := range cellStores(a) {
+					walk(st.Val, d+1)
+				}
+				return
+			}
+			if f, fa := fieldOf(y.X); f != nil && f.Name() == field {
+				base := fa.X
+				if ph, ok := base.(*ssa.Phi); ok {
+					for _, e := range ph.Edges {
+						out[e] = true
+					}
+					return
+				}
+				out[base] = true
+			}
+		}
+	}
+	walk(v, 0)
+	return out
+}
+
+// loaderCodecIsLogCodec: in every constructor that rebuilds a log from stored blocks, the codec the loader reads
+// with and the codec the rebuilt log is given are loaded from the same options value.
+func loaderCodecIsLogCodec(c *Ctx, r *Report, rule string) {
+	p := c.P
+	n := 0
+	for _, sp := range []struct {
+		ctor, loader string
+		ifaceArg     int // index of the codec argument of the loader, or -1 when it travels in the FetchOptions
+		optArg       int
+	}{{"NewFromMultihash", "fromMultihash", 4, 3}, {"NewFromEntryHash", "fromEntryHash", 4, 3}, {"NewFromJSON", "fromJSON", -1, 3}, {"NewFromEntry", "fromEntry", -1, 3}} {
+		fn := p.Func("", "", sp.ctor)
+		sf := p.SSAFunc(fn)
+		var loaderCall, newLogCall *ssa.Call
+		allInstrs(sf, true, func(ins ssa.Instruction) {
+			if call, ok := ins.(*ssa.Call); ok {
+				if f := calleeOf(call); f != nil {
+					switch f.Name() {
+					case sp.loader:
+						loaderCall = call
+					case "NewLog":
+						newLogCall = call
+					}
+				}
+			}
+		})
+		key := r.Key(rule, fn, "read-codec-is-log-codec", "")
+		if loaderCall == nil || newLogCall == nil {
+			r.Violate(rule, key, fn.Body.Pos(), sp.ctor+" no longer calls "+sp.loader+" and NewLog")
+			continue
+		}
+		codecOf := func(call *ssa.Call, ifaceArg, optArg int, structPkg, structName string) ssa.Value {
+			if ifaceArg >= 0 && ifaceArg < len(call.Call.Args) {
+				return call.Call.Args[ifaceArg]
+			}
+			if optArg < len(call.Call.Args) {
+				bases := structBases(call.Call.Args[optArg], p.Named(structPkg, structName))
+				for _, sts := range storesToBases(sf, bases)["IO"] {
+					return sts.Val
+				}
+			}
+			return nil
+		}
+		vl := codecOf(loaderCall, sp.ifaceArg, sp.optArg, "iface", "FetchOptions")
+		vn := codecOf(newLogCall, -1, 2, "", "LogOptions")
+		if vl == nil || vn == nil {
+			r.Undecided(rule, key, loaderCall.Pos(), "the codec handed to the loader or to NewLog could not be located in "+sp.ctor)
+			continue
+		}
+		n++
+		// a base that is the parameter of a helper building the options stands for the argument this constructor
+		// passes for it
+		lift := func(m map[ssa.Value]bool) map[ssa.Value]bool {
+			out := map[ssa.Value]bool{}
+			for b := range m {
+				par, ok := b.(*ssa.Parameter)
+				if !ok || par.Parent() == sf {
+					out[b] = true
+					continue
+				}
+				idx := -1
+				for i, q := range par.Parent().Params {
+					if q == par {
+						idx = i
+					}
+				}
+				found := false
+				allInstrs(sf, true, func(ins ssa.Instruction) {
+					if call, ok := ins.(*ssa.Call); ok && call.Call.StaticCallee() == par.Parent() && idx >= 0 && idx < len(call.Call.Args) {
+						a := call.Call.Args[idx]
+						if ph, ok := a.(*ssa.Phi); ok {
+							for _, e := range ph.Edges {
+								out[e] = true
+							}
+						} else {
+							out[a] = true
+						}
+						found = true
+					}
+				})
+				if !found {
+					out[b] = true
+				}
+			}
+			return out
+		}
+		bl, bn := lift(directFieldLoadBases(vl, "IO")), lift(directFieldLoadBases(vn, "IO"))
+		same := len(bl) > 0 && len(bl) == len(bn)
+		for b := range bl {
+			if !bn[b] {
+				same = false
+			}
+		}
+		name := func(m map[ssa.Value]bool) string {
+			var o []string
+			for b := range m {
+				o = append(o, b.Name())
+			}
+			sort.Strings(o)
+			return strings.Join(o, ",")
+		}
+		r.Check(same, rule, key, loaderCall.Pos(),
+			"the loader reads with the codec the rebuilt log is given ("+name(bn)+".IO)",
+			fmt.Sprintf("%s reads the stored blocks with %s.IO but gives the rebuilt log %s.IO: when the two differ (an options value reused from an earlier load keeps the codec it was completed with) the blocks are read with another codec than the log's — sealed links are not opened, the log is rebuilt without its history and reports no error", sp.ctor, name(bl), name(bn)))
+	}
+	r.Floor(rule, "constructors whose read codec and log codec were compared", n, 4)
 }
